@@ -17,7 +17,7 @@ RULE = ("(a) every name (7 letters x up to 2 sharps/flats = 35) x octaves 0..9 (
         "transposition that crosses an octave boundary (incl. Cb/B# spellings, descending from C); a history of >= 3 steps or one "
         "on a bar holding both a rest and a chord."
         ' Also: tracks built by Track.from_chords (repeated symbols, nesting, rests), melodic sequences moved by the interval the history then uses, enharmonic twin bars, tracks with an instrument attached, keyword / default direction forms; chords that are not in ascending order and entries held in a user subclass of NoteContainer; change_octave / octave_up / octave_down on notes that transposition has taken below octave 0; tracks with an instrument whose notes are transposed beyond its range. Note-level transposition also from octaves -1..-3 and downwards from octave 0.')
-ASSUMPTIONS = ["downward transposition is generated from octave >= 1 (the statement does not say what happens below octave 0)",
+ASSUMPTIONS = ["note-level transposition is also asserted below octave 0 (start notes at octaves -1..-3, reached by transposing down): the pitch arithmetic of the statement has no floor, only change_octave has",
                "the pitch/letter arithmetic is asserted for names with <= 2 unmixed accidentals (the statement's name domain); "
                "names outside it that arise inside histories are covered by the Note-level differential only",
                "names are unmixed (augment then diminish is not the identity on 'C#b')"]
